@@ -1,10 +1,13 @@
-(* C10 - Timeouts, non-blocking mode and missing runtimes behave as documented (managed pool;
-   the unmanaged pool's single timeout is covered by the unmanaged engine). *)
+(* C10 - Timeouts, non-blocking mode and missing runtimes behave as documented: the managed
+   pool's three timeouts first, the unmanaged pool's single timeout (theorems c10_u_...) second. *)
 From Coq Require Import List ZArith Bool.
 From DP Require Import Common.Tab Managed.Model Managed.Contrib Managed.All Managed.InvQ Managed.Ops
   Managed.Ops2 Managed.Protocol Managed.Timeouts Managed.Macro.
+From DP Require Unmanaged.Model Unmanaged.InvQ Unmanaged.Macro Unmanaged.Timeouts.
 Import ListNotations.
 Open Scope Z_scope.
+Module UM := DP.Unmanaged.Model.
+Module UT := DP.Unmanaged.Timeouts.
 
 (* zero wait timeout: never waits; a permit, Timeout(Wait) iff none is free, Closed iff closed *)
 Theorem c10_zero_wait : forall c s t g,
@@ -94,6 +97,100 @@ Example c10_nonvacuous :
             /\ queue s = [] /\ permits s = 0.
 Proof. eexists. vm_compute. repeat split. Qed.
 
+(* ------------------------------------------------------------------ the unmanaged pool *)
+(* timeout_get(Some(0)): one step decides and the call never joins the wait queue *)
+Theorem c10_u_zero_wait : forall c s t rm,
+  UM.pcof s t = UM.GAcq UM.TZero rm ->
+  exists s', UM.step c s (UM.Step t) = Some s' /\ UM.queue s' = UM.queue s /\
+    ((UM.closed s = true /\ UM.pcof s' t = UM.UAvail UM.RClosed /\ UM.permits s' = UM.permits s)
+     \/ (UM.closed s = false /\ 0 < UM.permits s /\ UM.pcof s' t = UM.GPop true rm
+         /\ UM.permits s' = UM.permits s - 1)
+     \/ (UM.closed s = false /\ UM.permits s <= 0 /\ UM.pcof s' t = UM.UAvail UM.RTimeout
+         /\ UM.permits s' = UM.permits s)).
+Proof. exact UT.zero_wait. Qed.
+
+Theorem c10_u_try_get : forall c s t rm,
+  UM.pcof s t = UM.GStart UM.KTry rm ->
+  exists s', UM.step c s (UM.Step t) = Some s' /\ UM.queue s' = UM.queue s /\
+    ((UM.closed s = true /\ UM.pcof s' t = UM.PDone UM.RClosed)
+     \/ (UM.closed s = false /\ 0 < UM.permits s /\ UM.pcof s' t = UM.GPop false rm)
+     \/ (UM.closed s = false /\ UM.permits s <= 0 /\ UM.pcof s' t = UM.PDone UM.RTimeout)).
+Proof. exact UT.try_get_decides. Qed.
+
+(* a finite timeout without a runtime: NoRuntimeSpecified, the pool exactly as before *)
+Theorem c10_u_no_runtime : forall c s t rm,
+  UM.rt c = false -> UM.pcof s t = UM.GStart (UM.KTimed UM.TFin) rm ->
+  exists s3, UM.run c s [UM.Step t; UM.Step t; UM.Step t] = Some s3
+    /\ UM.pcof s3 t = UM.PDone UM.RNoRuntime
+    /\ UT.same_pool s s3 /\ (forall u, u <> t -> UM.pcof s3 u = UM.pcof s u).
+Proof. exact UT.no_runtime_get. Qed.
+
+Theorem c10_u_no_runtime_no_timer : forall c s t, UM.rt c = false -> UM.step c s (UM.Fire t) = None.
+Proof. exact UT.no_runtime_no_timer. Qed.
+
+(* with a runtime the call waits like a get() without timeout ... *)
+Theorem c10_u_timed_get_waits : forall c s t rm,
+  UM.rt c = true -> UM.pcof s t = UM.GAcq UM.TFin rm ->
+  UM.step c s (UM.Step t)
+  = Some (UM.acquire (UM.set_timed s (t :: UM.timed s)) t true rm true).
+Proof. exact UT.timed_get_waits. Qed.
+
+(* ... until the deadline: Timeout, the queue is left and the reservation returned, nothing else *)
+Theorem c10_u_wait_deadline : forall c s t rm,
+  UM.rt c = true -> In t (UM.timed s) -> UM.pcof s t = UM.GWait rm false -> UM.closed s = false ->
+  exists s1 s2, UM.step c s (UM.Fire t) = Some s1 /\ UM.step c s1 (UM.Step t) = Some s2
+    /\ UM.pcof s2 t = UM.PDone UM.RTimeout
+    /\ UM.permits s2 = UM.permits s /\ UM.closed s2 = UM.closed s
+    /\ UM.queue s2 = UM.remove_nat t (UM.queue s)
+    /\ UM.spermits s2 = UM.spermits s /\ UM.sclosed s2 = UM.sclosed s /\ UM.squeue s2 = UM.squeue s
+    /\ UM.vec s2 = UM.vec s /\ UM.size s2 = UM.size s /\ UM.avail s2 = UM.avail s + 1
+    /\ UM.out s2 = UM.out s /\ UM.loose s2 = UM.loose s /\ UM.dead s2 = UM.dead s
+    /\ UM.gone s2 = UM.gone s /\ UM.next_oid s2 = UM.next_oid s /\ UM.log s2 = UM.log s
+    /\ (forall u, u <> t -> UM.pcof s2 u = UM.pcof s u).
+Proof. exact UT.wait_deadline. Qed.
+
+Theorem c10_u_wait_deadline_leaves_queue : forall s t,
+  DP.Unmanaged.InvQ.GQ s -> ~ In t (UM.remove_nat t (UM.queue s)).
+Proof. exact UT.wait_deadline_leaves_queue. Qed.
+
+(* a permit assigned before the call is polled wins even after the deadline *)
+Theorem c10_u_slot_before_deadline : forall c s t rm,
+  UM.rt c = true -> In t (UM.timed s) -> UM.pcof s t = UM.GWait rm true -> UM.closed s = false ->
+  UM.step c s (UM.Fire t) = Some (UM.setpc s t (UM.GPop true rm)).
+Proof. exact UT.slot_before_deadline. Qed.
+
+(* timers exist only for calls given a finite timeout on a pool with a runtime *)
+Theorem c10_u_timers_need_runtime : forall c s t,
+  UM.Reachable c s -> In t (UM.timed s) -> UM.rt c = true.
+Proof. exact UT.reachable_timers_need_runtime. Qed.
+
+(* Timeout is answered in no other situation: a call that does not wait finds nothing free
+   (get family / try_add), or the deadline of a waiting timed call passes *)
+Theorem c10_u_timeout_cause : forall c s l s' u,
+  UM.step c s l = Some s' -> UT.ct (UM.pcof s u) = false -> UT.ct (UM.pcof s' u) = true ->
+  (l = UM.Step u /\ UM.closed s = false /\ UM.permits s <= 0
+     /\ exists rm, UM.pcof s u = UM.GStart UM.KTry rm \/ UM.pcof s u = UM.GAcq UM.TZero rm)
+  \/ (l = UM.Step u /\ UM.sclosed s = false /\ UM.spermits s <= 0
+      /\ exists o, UM.pcof s u = UM.AStart o false)
+  \/ (l = UM.Fire u /\ UM.rt c = true /\ In u (UM.timed s) /\ UM.closed s = false
+      /\ exists rm, UM.pcof s u = UM.GWait rm false).
+Proof. exact UT.timeout_cause. Qed.
+
+(* task-level (virtual clock) executions of the unmanaged model are thread-level executions *)
+Theorem c10_u_macro_is_run : forall c s l s',
+  DP.Unmanaged.Macro.macro c s l = Some s' -> exists tr, UM.run c s (l :: tr) = Some s'.
+Proof. exact DP.Unmanaged.Macro.macro_is_run. Qed.
+
+(* non-vacuity: from_config(max_size 1, runtime); timeout_get(finite) on the empty pool waits,
+   the deadline passes: Timeout, available back to 0, queue empty *)
+Definition ucfg := {| UM.how := UM.CConfig; UM.max0 := 1; UM.ptmo := UM.TNone; UM.rt := true |}.
+Definition utr : list UM.label :=
+  [UM.Start 0 (UM.OpGet (UM.STimeout UM.TFin) false); UM.Step 0; UM.Step 0; UM.Fire 0; UM.Step 0].
+Example c10_u_nonvacuous :
+  exists s, UM.run ucfg (UM.init ucfg) utr = Some s /\ UM.pcof s 0 = UM.PDone UM.RTimeout
+            /\ UM.avail s = 0 /\ UM.queue s = [] /\ UM.timed s = [0%nat].
+Proof. eexists. vm_compute. repeat split. Qed.
+
 Check c10_wait_deadline : forall c s t g a,
   runtime c = true -> pcof s t = GWait g a -> gw g = TFin ->
   step c s (Fire t) = Some (tick (setpc (leave_wait s t a) t (UUsers RTimeoutWait))).
@@ -110,3 +207,14 @@ Print Assumptions c10_no_runtime_wait.
 Print Assumptions c10_no_runtime_create.
 Print Assumptions c10_build.
 Print Assumptions c10_macro_is_run.
+Print Assumptions c10_u_zero_wait.
+Print Assumptions c10_u_try_get.
+Print Assumptions c10_u_no_runtime.
+Print Assumptions c10_u_no_runtime_no_timer.
+Print Assumptions c10_u_timed_get_waits.
+Print Assumptions c10_u_wait_deadline.
+Print Assumptions c10_u_wait_deadline_leaves_queue.
+Print Assumptions c10_u_slot_before_deadline.
+Print Assumptions c10_u_timers_need_runtime.
+Print Assumptions c10_u_timeout_cause.
+Print Assumptions c10_u_macro_is_run.
